@@ -379,6 +379,36 @@ type SibCase struct {
 }
 
 func checkSiblings(c SibCase, o *stats.Obs) error {
+	// First the bare history: the frames decoded back to back, nothing else in between (the full check of
+	// each message below decodes other frames of its own), through the typed decoder and through one handler.
+	for pass := 0; pass < 2; pass++ {
+		for i, cs := range c.Cases {
+			b := cs.Msg
+			b.WithH = b.Type == 1006
+			frame := b.Frame()
+			var f *fields
+			var err error
+			if pass == 0 {
+				f, err = decodeDirect(frame, b.Type, level(cs.Debug))
+			} else {
+				f, _, err = decodeViaHandler(frame, level(cs.Debug))
+			}
+			if err != nil || f == nil {
+				o.Key = "history/rejected"
+				return fmt.Errorf("message %d of a history of %d back-to-back decodes (pass %d): rejected: %v (frame %x)", i, len(c.Cases), pass, err, frame)
+			}
+			want := fields{uint(b.Type), b.StationID, b.ITRFYear, b.Ignored1, b.Ignored2, b.Ignored3, b.X, b.Y, b.Z, 0, ""}
+			if b.WithH {
+				want.height = b.Height
+			}
+			got := *f
+			got.text = ""
+			if got != want {
+				o.Key = "history/field-mismatch"
+				return fmt.Errorf("message %d of a history of %d back-to-back decodes (each differs from the one before in one field; pass %d): decoded %+v, want %+v (frame %x)", i, len(c.Cases), pass, got, want, frame)
+			}
+		}
+	}
 	for i, cs := range c.Cases {
 		oo := &stats.Obs{}
 		if err := check(cs, oo); err != nil {
